@@ -173,6 +173,11 @@ func propTable() map[string]*PropSpec {
 				q = append(q, c)
 			}
 		}
+		// a block-less NEW_VIEW under a consumer that does not object: the node must not end up voting "proof without block"
+		bl12 := rc("C11_BlocklessNewView", ".", "C11_BlocklessNewView", nil)
+		bl12.RequireReach = []string{"C11.blockless.voted"}
+		q = append(q, bl12)
+		th = append(th, bl12)
 		// ValidateBlockConsensus / GetMemberIdsFromBlockProof on a genuine certificate with one mutated window
 		for _, k := range []int{1, 3} {
 			c := rc(fmt.Sprintf("C02_Mutate/signers=%d", k), ".", "C02_Mutate", map[string]int{"signers": k})
@@ -228,7 +233,7 @@ func propTable() map[string]*PropSpec {
 					}
 					c := mk("C20_ViewChange", map[string]int{"idlen": il, "hashlen": (il + 1) % 5, "prepares": pr, "proof": proof}, "C20.VC.done")
 					th = append(th, c)
-					if il == 1 || (il == 3 && pr == 2) {
+					if il == 1 || (il == 3 && pr == 2) || (il == 0 && proof == 1 && pr == 1) {
 						q = append(q, c)
 					}
 				}
@@ -627,10 +632,12 @@ func propTable() map[string]*PropSpec {
 		tn := mkN(1, 2)
 		tn.Name += "/trailing=4"
 		tn.Params = map[string]int{"sym": 1, "prepares": 2, "trailing": 4}
+		bl := rc("C11_BlocklessNewView", ".", "C11_BlocklessNewView", nil)
+		bl.RequireReach = []string{"C11.blockless.committed", "C11.blockless.voted"}
 		tn0 := mkN(1, -1)
 		tn0.Name += "/trailing=4"
 		tn0.Params = map[string]int{"sym": 1, "prepares": -1, "trailing": 4}
-		q := []RunConfig{tv, tn, tn0, mkV(2, 1), mkV(3, 2), mkN(1, -1), mkN(1, 2), mkP(2), mkP(1), mkX(0, 3), mkX(3, 0), mkX(0, 2)}
+		q := []RunConfig{tv, tn, tn0, bl, mkV(2, 1), mkV(3, 2), mkN(1, -1), mkN(1, 2), mkP(2), mkP(1), mkX(0, 3), mkX(3, 0), mkX(0, 2)}
 		th := append([]RunConfig{}, q...)
 		th = append(th, mkV(3, 1), mkV(2, 2), mkN(0, -1), mkN(2, -1), mkN(1, 0), mkN(1, 3), mkN(2, 2), mkP(3), mkX(2, 0), mkX(2, 3), mkX(3, 2))
 		for _, me := range []int{0, 1, 2} {
